@@ -98,6 +98,13 @@ def qlt_fields(fr):
     return d
 
 # ------------------------------------------------------------------ block helpers
+def rxview(blk, fr):
+    """the first bytes of the receive buffer as the responder finds them: the frame, then (for a frame shorter than a
+    header and its first fields) what the buffer held before - the fill byte of the operation"""
+    t = blk.op.split()
+    try: fill = int(t[2], 16) & 255
+    except (ValueError, IndexError): fill = 0
+    return fr + bytes([fill]) * max(0, 64 - len(fr)) if len(fr) < 64 else fr
 def frame_of(blk):
     """received frame bytes of a 'frame <ctx> <fill> <hex>' block"""
     t = blk.op.split()
@@ -237,7 +244,7 @@ def frame_hdr(blk):
     t = blk.op.split()
     if len(t) < 4: return None
     fr = V.unhex(t[3])
-    return dec(fr + bytes(max(0, 36 - len(fr))))
+    return dec(rxview(blk, fr))
 
 # ------------------------------------------------------------------ scenario families aimed at narrow triggers
 RESIDUE_MTUS = list(range(576, 596)) + [1492, 1493, 1494, 1514]     # every residue of (MTU-34) mod 20 (and most mod 14), PPPoE, jumbo-ish
